@@ -144,8 +144,8 @@ fn cmd_run(args: &[String]) -> i32 {
             break;
         }
         let seed = seed_for(&prop, verif_seed, i);
-        let sc = gen::generate(&prop, seed);
         crumb::set(i);
+        let sc = gen::generate(&prop, seed);
         let cold = cold_every > 0 && i % cold_every == 0;
         let opts = ExecOpts { log_events: agg.samples.len() < 2 && worker == 0, cold, exe: exe.clone() };
         let out = execute(&sc, &mut corpus, armed, &opts);
@@ -351,7 +351,13 @@ fn main() {
         std::env::remove_var(k);
     }
     let code = match args[0].as_str() {
-        "run" => cmd_run(&args[1..]),
+        "run" => match std::panic::catch_unwind(|| cmd_run(&args[1..])) {
+            Ok(c) => c,
+            Err(_) => {
+                eprintln!("HARNESS PANIC: {}", exec::LAST_PANIC.with(|p| p.borrow().clone()));
+                101
+            }
+        },
         "replay" => cmd_replay(&args[1..]),
         "gen" => {
             let seed: u64 = args.get(2).and_then(|s| s.parse().ok()).unwrap_or(1);
